@@ -4,7 +4,7 @@ from .. import gen, elect, refstv
 from ..common import Names, rat
 
 PROP = "C01"
-LEAN_MODULE = "VK.Props.C01Veto"
+LEAN_MODULE = "VK.Props.C01VetoTerm"
 THEOREMS = [
     "VK.C01_topM_two_states",
     "VK.stvStep_inv",
@@ -39,6 +39,12 @@ THEOREMS = [
     "VK.pvLoop_spec",
     "VK.C01_veto_exactly_m_and_partition",
     "VK.C01_veto_loops_at",
+    "VK.vetoLoop_no_strike",
+    "VK.fpv_posSum",
+    "VK.noFuel_pvRound",
+    "VK.pvRound_progress",
+    "VK.pvLoop_noFuel",
+    "VK.C01_veto_terminates",
 ]
 RULE = ("cases = rule (18 classes) x random valid profile (1-6 candidates incl. zero-vote ones, 0-10 ballots, partial "
         "ballots, tied positions where the rule allows them, unit/int/rational weights; score ballots within limits for "
